@@ -484,9 +484,15 @@ func K2(rc *RC, fams map[string][]*Member, filter FamilyFilter, floor int) {
 				rc.S.Undec("K2", key, pos, "kernel loop is not one of the recognised idioms: "+strings.Join(got.Notes, "; "))
 				continue
 			}
-			gk, wk := got.Key(), want.Key()
+			// a trailing `continue` on a guarded update says nothing the guards of the later
+			// updates do not say already (they carry the negation of the earlier guards)
+			gk, wk := strings.ReplaceAll(got.Key(), " ; continue", ""), strings.ReplaceAll(want.Key(), " ; continue", "")
 			if gk == wk || ambig(gk) == ambig(wk) {
 				rc.S.Ok("K2", key, pos, strings.TrimSpace(strings.ReplaceAll(gk, "\n", " | ")))
+				continue
+			}
+			if !sameSkeleton(gk, wk) {
+				rc.S.Undec("K2", key, pos, fmt.Sprintf("the kernel's guarded-update view no longer has the shape of the operator table's summary (restructured: %s); its terms are not compared", firstDiff(gk, wk)))
 				continue
 			}
 			o := rc.S.Viol("K2", key, pos, fmt.Sprintf("kernel does not compute the operator table's term: %s\n got: %s\nwant: %s", firstDiff(gk, wk), strings.ReplaceAll(strings.TrimSpace(gk), "\n", " | "), strings.ReplaceAll(strings.TrimSpace(wk), "\n", " | ")))
